@@ -450,15 +450,6 @@ def r7_cache_keys_complete(repo=None):
                                         for x in ast.walk(t):
                                             if isinstance(x, ast.Name) and isinstance(x.ctx, ast.Store):
                                                 deps.setdefault(x.id, set()).update(used)
-                    work = [x.id for x in ast.walk(st.value) if isinstance(x, ast.Name)]
-                    seen = set()
-                    while work:
-                        v = work.pop()
-                        if v in seen:
-                            continue
-                        seen.add(v)
-                        work.extend(deps.get(v, ()))
-                    need = [p_ for p_ in params if p_ in seen]
                     keyexpr = st.targets[0].slice
                     knames = set()
                     kwork = [x.id for x in ast.walk(keyexpr) if isinstance(x, ast.Name)]
@@ -471,7 +462,40 @@ def r7_cache_keys_complete(repo=None):
                         for a in pyfront.walk_no_nested(fn):
                             if isinstance(a, ast.Assign) and any(isinstance(t, ast.Name) and t.id == v for t in a.targets):
                                 kwork.extend(x.id for x in ast.walk(a.value) if isinstance(x, ast.Name))
+                    # what the value depends on *other than through the key*: the closure is not continued through a name of the key
+                    # (a value built from the key's own components is a function of the key)
+                    work = [x.id for x in ast.walk(st.value) if isinstance(x, ast.Name)]
+                    seen = set()
+                    while work:
+                        v = work.pop()
+                        if v in seen:
+                            continue
+                        seen.add(v)
+                        if v in knames:
+                            continue
+                        work.extend(deps.get(v, ()))
+                    need = [p_ for p_ in params if p_ in seen]
                     missing = [p_ for p_ in need if p_ not in knames]
+                    # a choice that depends on the state of the disk: the value depends on a loop variable that is selected under a
+                    # file-system probe; then that variable itself has to be part of the key (otherwise the first answer is kept
+                    # although the disk has changed: a new reader would choose differently)
+                    probed = []
+                    for lp in pyfront.walk_no_nested(fn):
+                        if isinstance(lp, ast.For) and any(st is x for x in ast.walk(lp)):
+                            tnames = {x.id for x in ast.walk(lp.target) if isinstance(x, ast.Name)}
+                            guards_ = [i_ for i_ in ast.walk(lp) if isinstance(i_, ast.If) and any(st is x for x in ast.walk(i_))
+                                       and any(isinstance(c_, ast.Call) and (pyfront.call_name(c_) or "") in (
+                                           "os.access", "os.path.exists", "os.path.isdir", "os.path.isfile") for c_ in ast.walk(i_.test))]
+                            if guards_ and (tnames & seen) and not (tnames & knames):
+                                probed.append((lp, sorted(tnames & seen)[0]))
+                    if probed and not missing:
+                        lp, tn = probed[0]
+                        r.violation(m.rel, q, "%s[%s] = %s" % (memo, norm(ast.unparse(keyexpr)), norm(ast.unparse(st.value))[:40]),
+                                    "the memoised value depends on `%s`, the element of `%s` that a file-system probe selected when the "
+                                    "entry was made, and `%s` is not part of the key: the first choice is kept for good although the disk "
+                                    "changes - a reader created earlier goes on answering from the directory chosen then, a new reader "
+                                    "chooses again" % (tn, norm(ast.unparse(lp.iter))[:40], tn), line=st.lineno)
+                        continue
                     site = "%s:%s %s `%s[%s]`" % (m.rel, st.lineno, q, memo, norm(ast.unparse(keyexpr)))
                     same_key = all(norm(ast.unparse(h.value.slice)) == norm(ast.unparse(keyexpr)) for h in hits)
                     if missing:
